@@ -69,6 +69,22 @@ impl GlideProcessor {
 }
 
 /// `coeffs(fs, f0)` is the lowpass filter coefficients for sample rate `fs`, cutoff frequency `f0`, and Q = 0
+#[cfg(feature = "verif-hooks")]
+impl GlideProcessor {
+    /// Verification hook: the filter coefficients currently in effect as `(a1, a2, b0, b1, b2)`
+    pub fn verif_coeffs(&self) -> (f32, f32, f32, f32, f32) {
+        let mut lpf = self.lpf;
+        let c = lpf.replace_coefficients(Coefficients {
+            a1: 0.0,
+            a2: 0.0,
+            b0: 0.0,
+            b1: 0.0,
+            b2: 0.0,
+        });
+        (c.a1, c.a2, c.b0, c.b1, c.b2)
+    }
+}
+
 fn coeffs(fs: Hertz<f32>, f0: Hertz<f32>) -> Coefficients<f32> {
     Coefficients::<f32>::from_params(Type::SinglePoleLowPass, fs, f0, 0.0_f32).unwrap()
 }
